@@ -65,6 +65,10 @@ type nestCase struct {
 	fail    bool
 }
 
+// nestExpect: reference encoding taken from a copy, for fixtures whose own cached sizes must not be refreshed before the bridge is
+// used (absent: csproto.Marshal of the fixture itself)
+var nestExpect = map[interface{}]func() []byte{}
+
 func payloadN(n int) []byte {
 	// a well-formed message of exactly n bytes: field 1 (LEN) with n-2 / n-3 bytes of content
 	switch {
@@ -127,6 +131,27 @@ func nestCases() []nestCase {
 	for _, m := range v2 {
 		m := m
 		cs = append(cs, nestCase{"googlev2", m, func() interface{} { return m.ProtoReflect().New().Interface() }, eqV2, false})
+	}
+	// runtime-owned messages that were sized once and then changed in a nested message: the bridge must not trust a size cached
+	// inside the message (the expected bytes come from a clone, so nothing refreshes the caches of the message itself)
+	for i := 0; i < 3; i++ {
+		st := &descriptorpb.DescriptorProto{Name: proto.String("M"), Field: []*descriptorpb.FieldDescriptorProto{{Name: proto.String("f"), Number: proto.Int32(1)}}}
+		switch i {
+		case 0:
+			_ = csproto.Size(st)
+		case 1:
+			_, _ = csproto.Marshal(st)
+		default:
+			_ = proto.Size(st)
+		}
+		// (no map fields: the comparison with the clone's encoding is byte for byte)
+		st.Field[0].Name, st.Field[0].TypeName = proto.String(string(long)), proto.String(".pkg.T")
+		m := st
+		cs = append(cs, nestCase{"googlev2", m, func() interface{} { return &descriptorpb.DescriptorProto{} }, eqV2, false})
+		nestExpect[m] = func() []byte {
+			b, _ := proto.MarshalOptions{Deterministic: true}.Marshal(proto.Clone(m))
+			return b
+		}
 	}
 	eqGogo := func(a, b interface{}) bool { return gogoproto.Equal(a.(gogoproto.Message), b.(gogoproto.Message)) }
 	gg := []gogoproto.Message{
@@ -200,12 +225,18 @@ func famNest(thorough bool) {
 			}
 			if !c.fail {
 				var err error
-				mb, err = csproto.Marshal(c.msg)
+				if exp := nestExpect[c.msg]; exp != nil {
+					mb = exp()
+				} else {
+					mb, err = csproto.Marshal(c.msg)
+				}
 				if err != nil {
 					fmt.Println("harness: csproto.Marshal failed on a fixture:", err)
 					continue
 				}
-				if rb, ok := runtimeBytes(c); ok && string(rb) != string(mb) {
+				if nestExpect[c.msg] != nil {
+					// (nothing may marshal the fixture itself before the bridge is used)
+				} else if rb, ok := runtimeBytes(c); ok && string(rb) != string(mb) {
 					// csproto.Marshal disagrees with the owning runtime: reported through the event (ref # a)
 					w.Emit(&tr.Ev{C: "encn", K: c.flavour, Fn: fn, A: tr.Bytes(mb), Ref: tr.Bytes(rb), Hx: 1, St: "ok", Note: "marshal-differs"})
 				}
